@@ -2,6 +2,7 @@ package ast
 
 import (
 	"fmt"
+	"reflect"
 
 	"github.com/google/go-cmp/cmp"
 	"github.com/grafana/cog/internal/tools"
@@ -814,7 +815,7 @@ func (t EnumType) MemberForValue(value any) (EnumValue, bool) {
 	}
 
 	equal := func(a, b any) bool {
-		return a == b
+		return reflect.DeepEqual(a, b)
 	}
 	if t.Values[0].Type.Scalar != nil && t.Values[0].Type.Scalar.ScalarKind != KindString {
 		equal = func(a, b any) bool {
